@@ -768,3 +768,144 @@ func zzC05RunFamily(
 
 	return res
 }
+
+// TestZZVerifC05Gated forces the interleavings of Concurrency.tla in which a
+// request is parked in its Upstream stage (the mock upstream blocks on a gate)
+// while one admin operation runs to completion, then is released: the request
+// must still be answered with a well-formed response, and the admin operation
+// must return although requests are in flight.
+func TestZZVerifC05Gated(t *testing.T) {
+	w := zzNewWriter(t, "VERIF_OUT")
+	defer w.close()
+
+	dir := os.Getenv("VERIF_DIR")
+	if dir == "" {
+		dir = t.TempDir()
+	}
+
+	sys := zzC05Boot(t, dir)
+	defer sys.shutdown()
+
+	fams := zzC05Families(sys)
+	names := make([]string, 0, len(fams))
+	for n := range fams {
+		names = append(names, n)
+	}
+
+	rounds := 6
+	if v := os.Getenv("VERIF_C05_ROUNDS"); v != "" {
+		_, _ = fmt.Sscanf(v, "%d", &rounds)
+	}
+
+	rng := rand.New(rand.NewSource(zzSeed()))
+	type gatedRes struct {
+		Kind    string   `json:"kind"`
+		Family  string   `json:"family"`
+		Round   int      `json:"round"`
+		Replies []string `json:"replies"`
+		Bad     []string `json:"bad"`
+		Parked  int64    `json:"parked"`
+	}
+
+	for _, fam := range names {
+		for i := 0; i < rounds; i++ {
+			res := &gatedRes{Kind: "gated", Family: fam, Round: i}
+			gate := make(chan struct{})
+			up0 := sys.upCalls.Load()
+			sys.upGate.Store(&gate)
+
+			type qres struct {
+				name string
+				rep  zzC05Reply
+			}
+
+			// Names that reach the upstream under every configuration the
+			// families install, plus ones whose fate the operation changes.
+			qnames := []string{"plain.example", "flip.example", "rw0.example", "www.youtube.com", "gen1.example", "other-plain.example"}
+			out := make(chan qres, len(qnames))
+			for qi, name := range qnames {
+				go func(qi int, name string) {
+					netw := "udp"
+					if qi%2 == 1 {
+						netw = "tcp"
+					}
+
+					c := &dns.Client{Net: netw, Timeout: 8 * time.Second}
+					conn, err := c.Dial(sys.dnsAddr)
+					if err != nil {
+						out <- qres{name, zzC05Reply{Class: "malformed", Err: err.Error()}}
+
+						return
+					}
+					defer conn.Close()
+
+					m := (&dns.Msg{}).SetQuestion(dns.Fqdn(name), dns.TypeA)
+					_ = conn.SetDeadline(time.Now().Add(8 * time.Second))
+					r, _, err := c.ExchangeWithConn(m, conn)
+					switch {
+					case err != nil:
+						out <- qres{name, zzC05Reply{Class: "timeout", Err: err.Error()}}
+					case r.Id != m.Id || !r.Response || len(r.Question) != 1 || !strings.EqualFold(r.Question[0].Name, m.Question[0].Name):
+						out <- qres{name, zzC05Reply{Class: "malformed", Err: r.String()}}
+					default:
+						out <- qres{name, zzC05Reply{Class: "ok", Rcode: r.Rcode}}
+					}
+				}(qi, name)
+			}
+
+			// Wait until at least one request is parked in the upstream (or all
+			// were answered locally).
+			deadline := time.Now().Add(2 * time.Second)
+			for sys.upCalls.Load() == up0 && time.Now().Before(deadline) {
+				time.Sleep(2 * time.Millisecond)
+			}
+
+			time.Sleep(20 * time.Millisecond)
+			res.Parked = sys.upCalls.Load() - up0
+
+			done := make(chan string, 1)
+			go func() {
+				defer func() {
+					if r := recover(); r != nil {
+						buf := make([]byte, 1<<14)
+						buf = buf[:runtime.Stack(buf, false)]
+						done <- fmt.Sprintf("panic: %v\n%s", r, buf)
+
+						return
+					}
+
+					done <- ""
+				}()
+
+				fams[fam](rng, i)
+			}()
+
+			select {
+			case p := <-done:
+				if p != "" {
+					res.Bad = append(res.Bad, p)
+				}
+			case <-time.After(15 * time.Second):
+				buf := make([]byte, 1<<18)
+				buf = buf[:runtime.Stack(buf, true)]
+				res.Bad = append(res.Bad, "STALL: admin operation did not return while requests were parked in the upstream\n"+string(buf))
+			}
+
+			sys.upGate.Store(nil)
+			close(gate)
+
+			for range qnames {
+				q := <-out
+				res.Replies = append(res.Replies, fmt.Sprintf("%s:%s:%d", q.name, q.rep.Class, q.rep.Rcode))
+				if q.rep.Class != "ok" {
+					res.Bad = append(res.Bad, fmt.Sprintf("%s: %s %s", q.name, q.rep.Class, q.rep.Err))
+				}
+			}
+
+			w.put(res)
+			if len(res.Bad) > 0 && strings.HasPrefix(res.Bad[0], "STALL") {
+				return
+			}
+		}
+	}
+}
